@@ -291,50 +291,79 @@ func c15Content(p *an.Prog, r *an.R) {
 		r.Fn(where.rel + "." + where.fn)
 		info := d.Pkg.TypesInfo
 		for _, c := range an.CallsTo(info, d.Decl.Body, true, add) {
-			cl, ok := ast.Unparen(c.Args[0]).(*ast.CompositeLit)
-			if !ok {
-				r.Und("C15.R3", where.rel+"."+where.fn+"/Builder.Add/document-literal", c.Pos(), "the document is not a composite literal")
+			var lits []*ast.CompositeLit
+			if cl, ok := ast.Unparen(c.Args[0]).(*ast.CompositeLit); ok {
+				lits = append(lits, cl)
+			} else if id, ok := ast.Unparen(c.Args[0]).(*ast.Ident); ok {
+				// the document is built in a local first: every literal assigned to it
+				obj := info.ObjectOf(id)
+				other := false
+				ast.Inspect(d.Decl.Body, func(n ast.Node) bool {
+					as, ok := n.(*ast.AssignStmt)
+					if !ok || len(as.Lhs) != len(as.Rhs) {
+						return true
+					}
+					for i, l := range as.Lhs {
+						if !isIdentOf(info, l, obj) {
+							continue
+						}
+						if cl, ok := ast.Unparen(as.Rhs[i]).(*ast.CompositeLit); ok {
+							lits = append(lits, cl)
+						} else {
+							other = true
+						}
+					}
+					return true
+				})
+				if other {
+					lits = nil
+				}
+			}
+			if len(lits) == 0 {
+				r.Und("C15.R3", where.rel+"."+where.fn+"/Builder.Add/document-literal", c.Pos(), "the document is not a composite literal (or a local assigned only composite literals)")
 				continue
 			}
-			for _, e := range cl.Elts {
-				kv, ok := e.(*ast.KeyValueExpr)
-				if !ok || kv.Key.(*ast.Ident).Name != "Content" {
-					continue
-				}
-				nDocs++
-				id, isID := ast.Unparen(kv.Value).(*ast.Ident)
-				good := isID
-				var defs []string
-				if isID {
-					obj := info.ObjectOf(id)
-					ast.Inspect(d.Decl.Body, func(n ast.Node) bool {
-						as, ok := n.(*ast.AssignStmt)
-						if !ok {
-							return true
-						}
-						for k, l := range as.Lhs {
-							if !isIdentOf(info, l, obj) {
-								continue
-							}
-							var rhs ast.Expr
-							if len(as.Rhs) == len(as.Lhs) {
-								rhs = as.Rhs[k]
-							} else {
-								rhs = as.Rhs[0]
-							}
-							src := c15ReadSource(info, d.Decl.Body, rhs)
-							defs = append(defs, src)
-							if src == "" {
-								good = false
-							}
-						}
-						return true
-					})
-					if len(defs) == 0 {
-						good = false
+			for _, cl := range lits {
+				for _, e := range cl.Elts {
+					kv, ok := e.(*ast.KeyValueExpr)
+					if !ok || kv.Key.(*ast.Ident).Name != "Content" {
+						continue
 					}
+					nDocs++
+					id, isID := ast.Unparen(kv.Value).(*ast.Ident)
+					good := isID
+					var defs []string
+					if isID {
+						obj := info.ObjectOf(id)
+						ast.Inspect(d.Decl.Body, func(n ast.Node) bool {
+							as, ok := n.(*ast.AssignStmt)
+							if !ok {
+								return true
+							}
+							for k, l := range as.Lhs {
+								if !isIdentOf(info, l, obj) {
+									continue
+								}
+								var rhs ast.Expr
+								if len(as.Rhs) == len(as.Lhs) {
+									rhs = as.Rhs[k]
+								} else {
+									rhs = as.Rhs[0]
+								}
+								src := c15ReadSource(info, d.Decl.Body, rhs)
+								defs = append(defs, src)
+								if src == "" {
+									good = false
+								}
+							}
+							return true
+						})
+						if len(defs) == 0 {
+							good = false
+						}
+					}
+					r.Check(good, "C15.R3", fmt.Sprintf("%s.%s/document#%d/content-is-what-was-read", where.rel, where.fn, nDocs), kv.Pos(), "Content comes unmodified from "+strings.Join(defs, " / "), "the document content is `"+types.ExprString(kv.Value)+"`, which is not (only) the unmodified result of reading the file, link or archive member")
 				}
-				r.Check(good, "C15.R3", fmt.Sprintf("%s.%s/document#%d/content-is-what-was-read", where.rel, where.fn, nDocs), kv.Pos(), "Content comes unmodified from "+strings.Join(defs, " / "), "the document content is `"+types.ExprString(kv.Value)+"`, which is not (only) the unmodified result of reading the file, link or archive member")
 			}
 		}
 	}
